@@ -62,6 +62,7 @@ type Exec struct {
 	nAlloc int
 	nCell  int
 	entry  *State
+	loopMods map[string]map[string]bool // loop key -> names of arrays / ghosts modified by the body (fixpoint across passes)
 	sweep  bool
 	fnKey  string
 	inlineDepth int
@@ -102,6 +103,8 @@ type loopInfo struct {
 	anyCall  bool
 	spec     *LoopSpec
 	ordinal  int
+	head     *State     // state at the header after havoc (to detect what the body modifies)
+	key      string
 	rangeIdx *ssa.Alloc // rangeindex cell, if a range-over-slice loop
 	lenVal   ssa.Value
 	rangeX   ssa.Value
@@ -416,10 +419,8 @@ func (x *Exec) newFrame(fn *ssa.Function, parent *Frame) *Frame {
 	if fn.Pkg != nil {
 		fr.pkg = fn.Pkg.Pkg
 	}
-	for _, p := range x.L.Pkgs {
-		if fr.pkg != nil && p.Types == fr.pkg {
-			fr.info = p.TypesInfo
-		}
+	if p, ok := x.L.All[fr.pkg]; ok && fr.pkg != nil {
+		fr.info = p.TypesInfo
 	}
 	fr.findLoops()
 	return fr
